@@ -206,6 +206,8 @@ def run(chk):
         ("len SetBytesWithClamping", lambda: K.k_len_reject(base, chk, prog.find("Scalar).SetBytesWithClamping"), 32, ST, "Scalar.SetBytesWithClamping")),
     ]
     run_kernels(chk, items)
+    from sym import validate
+    validate.scalar_kernels(base, chk, 150 if chk.tier == "thorough" else 10)
     # round trip: Bytes gives v<l little-endian; SetCanonicalBytes accepts v<l and yields value v; representation unique
     t0 = time.time()
     v, w = z3.Ints("v w")
